@@ -37,6 +37,9 @@ def node_src(n, ind="") -> list[str]:
             ps = ps.replace("a: int", "a")
             if "deco" in flags:
                 L.append(f"{ind}@functools.lru_cache")
+        if "redefined" in flags:      # an earlier definition of the same name: the later one wins
+            L += [f"{ind}{deco[f]}" for f in ("static", "classmethod", "property") if f in flags]
+            L += [f"{ind}def {name}({'self, ' if 'self' in params else ''}zold: int = 0):", f"{ind}    ...", ""]
         for f in ("static", "classmethod", "property"):
             if f in flags:
                 L.append(f"{ind}{deco[f]}")
@@ -44,7 +47,10 @@ def node_src(n, ind="") -> list[str]:
         attrs = [c for c in n["ch"] if c["k"] == "attr"]
         if attrs:
             for a in attrs:
-                L.append(f"{ind}    self.{a['name']}: int = 1")
+                if "deep" in a["flags"]:      # the second target assigns into the attribute, it defines none
+                    L.append(f"{ind}    self.{a['name']} = self.{a['name']}.sub = 1")
+                else:
+                    L.append(f"{ind}    self.{a['name']}: int = 1")
         else:
             L.append(f"{ind}    ...")
         L.append("")
@@ -57,7 +63,7 @@ def node_src(n, ind="") -> list[str]:
         L += [f"{ind}    {c['name']} = {val(j)}" for j, c in enumerate(n["ch"])] or [f"{ind}    pass"]
         L.append("")
     elif k == "attr":
-        L.append(f"{ind}{name}: int = 1")
+        L.append(f"{ind}{name} = {name} = 1" if "chained" in flags else f"{ind}{name}: int = 1")
     return L
 
 
@@ -72,6 +78,7 @@ def observe(api: dict, mid: str, text_valid: bool, pk: str = PKG) -> dict:
     pre = mid + "/"
     entries = []
     dups = []
+    twice = []      # ids that one owner lists more than once
 
     def own(x):      # the filler module of a package-file scenario is not part of it
         return (x == mid or x.startswith(pre)) and not (x + "/").startswith(pre + "fillmod/")
@@ -96,10 +103,12 @@ def observe(api: dict, mid: str, text_valid: bool, pk: str = PKG) -> dict:
             elif kind == "attr":
                 flags = ["static"] if e.get("is_static") else []
             dv = json.dumps(e.get("default_value")) if kind == "param" else ""
+            twice += sorted({r for r in refs if refs.count(r) > 1})
             entries.append({"kind": kind, "id": e["id"], "name": e["name"], "refs": refs, "flags": flags, "supers": supers, "dflt": dv})
     mod = next((m for m in api.get("modules", []) if m["id"] == mid), None)
     modrefs = (mod["classes"] + mod["functions"] + mod["enums"]) if mod else []
-    return {"mid": mid, "entries": entries, "modrefs": modrefs, "dups": dups, "valid": text_valid and mod is not None}
+    twice += sorted({r for r in modrefs if modrefs.count(r) > 1})
+    return {"mid": mid, "entries": entries, "modrefs": modrefs, "dups": dups, "twice": twice, "valid": text_valid and mod is not None}
 
 
 def main(v: Verdict) -> None:
